@@ -85,3 +85,8 @@ Inductive ts_new_stmt :=
 | TNSelf.                (* Self(sender, receiver) *)
 Inductive ts_drop_stmt := TDTrySendIgnore.        (* let _ = self.0.try_send(()) *)
 Inductive ts_take_stmt := TTRecvThenCloneSender.  (* receive one unit (blocking / async / with time-out), then Token(sender.clone()) *)
+
+(* HttpConn::write_response (src/http_conn.rs), the statements of the `if result.is_ok() { .. }` branch *)
+Inductive wr_after :=
+| WASetNoneUnless1xx     (* if !response.is_1xx() { self.write_state = WriteState::None; } *)
+| WAShutdownIfClose.     (* if close { self.shutdown_write(); } *)
